@@ -10,6 +10,26 @@ CLAIMED = {
    text='Decides the property structurally: every catch handler diagnoses to stderr and returns non-zero on all paths; the -o operand reaches the output std::fstream by positional binding (default "a.out"); run()\'s value reaches main\'s return on every path; a failed compile in xrun is non-zero; output files are opened only in the designated writers and nothing can reject after the open; option order independence. These are all shape properties of six small functions, so the static verdict covers every input and argument order; tests never start an executable.',
    note='Trusted: clang 14 AST; frozen tables of allowed writers / accepted internal-invariant throws (named symbols with reasons). Not decided: behaviour of the host file system (failed opens are not diagnosed by the tools at all), std::exit paths of --help.',
    ref='DESIGN.md section 5, C14'),
+ 'C02': dict(
+   technique='static analysis: abstract interpretation of hexsim::Processor::run/syscall/HexSimIO (clang AST) over symbolic terms with trace partitioning on the 256 instruction bytes; effect summaries compared with the transcribed ISA by canonical form',
+   text='Whole step relation: for each of the 240 defined instruction bytes the simulator\'s loop body has exactly the ISA\'s cases and, in each, identical canonical terms for pc/areg/breg/oreg, memory stores, the sequence of std-stream primitives (stream routing, file naming, lazy open), running flag and exit value, over fully symbolic registers/memory; plus fetch expression, constructor/loader/configuration and enum-table agreement. Equality of canonical forms is a statement about all 2^32 values per register, which no sampled run reaches.',
+   note='Trusted: clang AST; ISA transcription (spec_isa.py from hexb.pdf); term normaliser (passes only on identical forms, fails only with a distinguishing state, otherwise exit 2). Assumes effective addresses inside memory (property quantifier). Whole-run traces follow by induction on steps; host file behaviour not decided.',
+   ref='DESIGN.md section 5, C02'),
+ 'C03': dict(
+   technique='static analysis: symbolic evaluation of Verilator\'s elaborated XML netlist (processor+memory through hex.sv port maps) per instruction byte; next-state/write/syscall terms compared with the ISA by canonical form',
+   text='Whole per-clock relation under the property\'s address-range protocol: for all 228 defined bytes the RTL next-state functions of pc/areg/breg/oreg, the memory write (enable,address,data) and the syscall request equal the ISA step as canonical terms; fetch byte lane and data read path through the real port maps; single posedge clocking; reset state. Covers all register/memory values symbolically; no passing test executes a clock.',
+   note='Trusted: Verilator elaboration; ISA transcription; term normaliser. Protocol: pc mod 2^21, word addresses mod 2^19, LDAP as zext32(trunc21), OPR with oreg=0. Syscall effects are C06.',
+   ref='DESIGN.md section 5, C03'),
+ 'C12': dict(
+   technique='static analysis: constructor-initialisation audit of every scalar member (clang AST) with written-before-read proof on symbolic step paths; effect-set analysis of the trace functions; tracing-on vs tracing-off step summaries compared; nondeterminism-source scan with positive-control fixture',
+   text='Structural whole: defined (zero) initial state of every member the run can read; trace functions write nothing architectural and never touch I/O; the run loop behaves identically with tracing on/off for all 240 bytes (registers, stores, I/O, cycle count, exit); loop exit only by running/cycle limit and run() returns the initialised exit status; no nondeterminism source. These are shape properties of one class, decided for all images/inputs/host states.',
+   note='Trusted: clang AST; frozen exemption tables (instr/instrEnum written first - re-proved each run; debugInfoMap text-only). Assumes std streams deterministic.',
+   ref='DESIGN.md section 5, C12'),
+ 'C16': dict(
+   technique='static analysis: symbolic evaluation of Verilator XML for processor.sv, verilog/processor.v and synth/processor.v; all outputs and next-state functions compared by canonical term for all 256 bytes x reset',
+   text='Whole property: 2 copies x 256 instruction bytes x reset x all outputs/next-states are identical canonical terms over symbolic registers and read data, plus interface/sensitivity agreement. Exhaustive over the byte grid and symbolic over state, so it covers every input and state; nothing in the build elaborates processor.v.',
+   note='Trusted: Verilator elaboration; term normaliser. 2-state semantics (sv2v X constants must cancel).',
+   ref='DESIGN.md section 5, C16'),
 }
 
 NOT_YET = 'engine not finished yet in this round (DESIGN.md section 7 build order); no check is registered, nothing is claimed'
